@@ -78,6 +78,13 @@ def run(pid, tier, seed):
     log("[V] wire-sessions: %d runs, %d events, strict accepted %d, rejected %d" % (vc["runs"], vc["events"], vc["strict_accepted"], len(vc["violations"])))
     _viols(v, vc, "wire-sessions", lambda m: "roles=%s script=%s" % (m.get("roles"), json.dumps(m.get("script"))))
     parts["wire-sessions"] = (sc, vc)
+    # extras (evidence only; the claim stays scoped): bounded enumeration through a derived decoder, boundary round trips
+    extra = vlib.harness(["codec-extra"])
+    log("[X] codec extras: %d decoder inputs (%d ok, %d err, %d panics), %d round trips (%d failures)" % (
+        extra["decoder_inputs"], extra["decoded_ok"], extra["decoded_err"], extra["decoder_panics"], extra["round_trips"], len(extra["round_trip_failures"])))
+    if extra["decoder_panics"] or extra["round_trip_failures"]:
+        v.violation("codec-extra panics=%d roundtrip=%s" % (extra["decoder_panics"], extra["round_trip_failures"][:3]),
+                    {"family": "codec-extra", "meta": extra, "trace": []})
     runs = sum(s["runs"] for s, _ in parts.values())
     cov = {
         "states": sum(m["states"] for m in mcs),
@@ -97,6 +104,8 @@ def run(pid, tier, seed):
         "parts": {k: {"runs": s["runs"], "events": x["events"], "strict_accepted_runs": x["strict_accepted"],
                       "divergences": len(x["divergences"]), "rejected_runs": len(x["violations"]),
                       "tlc_trace_states": x["tlc_states"]} for k, (s, x) in parts.items()},
+        "deviation_runs": {k: x["deviations"] for k, (s, x) in parts.items() if x["deviations"]},
+        "extras_not_part_of_the_claim": extra,
         "mc_configs": [{"cfg": m["cfg"], "states": m["states"], "transitions": m["transitions"], "wall_s": m["wall_s"]} for m in mcs],
         "exhaustive": False,
     }
